@@ -667,6 +667,26 @@ def clause_view(F):
 def symptoms(case, R=None):
     """list of (symptom, what) for one instance, judged against the
     documentation only"""
+    out = _symptoms(case, R)
+    if case['fam'] == 'ramsey' and case['k'] != case['s'] and out:
+        # Known finding ramsey:k!=s:sat is the SPECIFIC defect "the size s is
+        # ignored: the formula asks for a k-clique or a k-independent set".
+        # A wrong verdict that this defect does not explain gets another key.
+        n, edges = case['n'], E(case)
+        k = case['k']
+        defect_sat = count_cliques(n, edges, k) > 0 or count_cliques(n, edges, k, True) > 0
+        fixed = []
+        for sym, what in out:
+            if sym == 'sat':
+                observed_sat = what.startswith('formula is SAT')
+                if observed_sat != defect_sat:
+                    sym = 'sat-not-explained-by-ignored-s'
+            fixed.append((sym, what))
+        out = fixed
+    return out
+
+
+def _symptoms(case, R=None):
     out = []
     X = expectation(case)
     try:
